@@ -823,6 +823,8 @@ class Frame(object):
                 if doppler_smearing:
                     ts = self.ts_ext
                 path = path(ts)
+                if not isinstance(path, np.ndarray):
+                    path = np.repeat(path, tchans_eff)
         elif isinstance(path, (list, np.ndarray)):
             path = np.array(path)
             if doppler_smearing:
